@@ -1,16 +1,16 @@
 #!/usr/bin/env python3
 """Regenerates the seed tables of DESIGN.md §9 (between the markers) from /verif/seeded/*/meta.json."""
 import json, glob, os, re
-rows1, rows2, rows3, rows4, rows5, rows6 = [], [], [], [], [], []
+rows1, rows2, rows3, rows4, rows5, rows6, rows7 = [], [], [], [], [], [], []
 for d in sorted(glob.glob('/verif/seeded/*')):
     m = json.load(open(d + '/meta.json'))
     n = os.path.basename(d)
     det = m.get('detection') == 'DETECTED'
     by = ('`' + (m.get('detected_by') or '') + '`') if det else '**missed**'
-    if '-r2m' in n or '-r3m' in n or '-r4m' in n or '-r5m' in n or '-r6m' in n:
+    if '-r2m' in n or '-r3m' in n or '-r4m' in n or '-r5m' in n or '-r6m' in n or '-r7m' in n:
         fs = m.get('first_sweep', '')
         first = 'detected' if fs.startswith('DETECTED') else 'missed'
-        (rows2 if '-r2m' in n else rows3 if '-r3m' in n else rows4 if '-r4m' in n else rows5 if '-r5m' in n else rows6).append(f"| {n} | {m.get('what','')} | {first} | {by} | {m.get('history','')} |")
+        (rows2 if '-r2m' in n else rows3 if '-r3m' in n else rows4 if '-r4m' in n else rows5 if '-r5m' in n else rows6 if '-r6m' in n else rows7).append(f"| {n} | {m.get('what','')} | {first} | {by} | {m.get('history','')} |")
     else:
         rows1.append(f"| {n} | {m.get('what','')} | {by} | {m.get('history','')} |")
 def count(rows, col):
@@ -31,6 +31,9 @@ n5first = sum(1 for r in rows5 if r.split('|')[3].strip() == 'detected')
 t6 = "| seed | what the change does | first sweep | caught by (now) | history |\n|---|---|---|---|---|\n" + "\n".join(rows6)
 n6d = count(rows6, 4)
 n6first = sum(1 for r in rows6 if r.split('|')[3].strip() == 'detected')
+t7 = "| seed | what the change does | first sweep | caught by (now) | history |\n|---|---|---|---|---|\n" + "\n".join(rows7)
+n7d = count(rows7, 4)
+n7first = sum(1 for r in rows7 if r.split('|')[3].strip() == 'detected')
 s = open('/verif/DESIGN.md').read()
 a = s.index('<!-- SEEDS:BEGIN -->'); b = s.index('<!-- SEEDS:END -->')
 body = f"""<!-- SEEDS:BEGIN -->
@@ -87,6 +90,17 @@ they measure the registration of an existing rule for a sibling property. One se
 later fix touched the same loop; its demonstration was re-run. Defect reports of round 6 are findings 73-99.
 
 {t6}
+
+### Round 7 ({len(rows7)} confirmed seeds; {n7first} detected by the first sweep, {n7d} detected now, {len(rows7)-n7d} missed)
+
+Round 7 was a partial round in the last hours, for the eight properties whose checks had changed most during the day
+(C02, C03, C06, C08, C10, C15, C17, C19), with the instructions of rounds 5 and 6. Its purpose was to measure the rules
+written from round 6's *defect reports* (findings 83-99) - rules that no seed had ever been run against - and it
+showed what every round has shown: three of the deliveries met an existing rule, one met a rule that existed for the
+sibling property only, the rest went past everything and were each answered by a clause that states the broken
+convention (section 3, "Rules written in round 7"). Its defect reports are findings 100 and 101.
+
+{t7}
 
 """
 s = s[:a] + body + s[b:]
